@@ -4,11 +4,13 @@ CONSTANTS
   Gaps <- GapsJitter2
   T = 10
   D = 2
-  MaxEvents = 6
+  MaxEvents = 4
+  MaxFails = 3
+  Backoff = FALSE
   Closed = TRUE
   ObserveCb = TRUE
   TrackQuiet = TRUE
   UnitMs = 1000
-INVARIANTS TypeOK Converged LearnsLive ForgetsDead SelfListed NoDuplicateAddr ChannelSane
+INVARIANTS TypeOK Converged LearnsLive ForgetsDead SelfListed PeriodRestored NoDuplicateAddr ChannelSane
 PROPERTIES CallbackIffChange NoResurrection
 VIEW View
